@@ -365,6 +365,7 @@ namespace sim
               r.sched = sched_end();
               r.threads_created = grid_threads_created();
               r.would_terminate = grid_would_terminate();
+              r.worker_exceptions = grid_worker_exceptions();
               std::cout.rdbuf(old_out);
               std::cerr.rdbuf(old_err);
               r.out = out.str();
@@ -1243,6 +1244,15 @@ namespace sim
                 Violation v;
                 v.cls = P + "/deadlock";
                 v.detail = "tool run ended with blocked tasks and nothing runnable";
+                v.site = "tool";
+                v.op_index = q.index;
+                res.violations.push_back(v);
+              }
+            if (r.worker_exceptions)
+              {
+                Violation v;
+                v.cls = P + "/worker-exception";
+                v.detail = "an exception escaped from a gwb-grid worker thread (std::terminate in the real program)";
                 v.site = "tool";
                 v.op_index = q.index;
                 res.violations.push_back(v);
